@@ -38,7 +38,7 @@ ASSUMPTIONS = [
 
 # ---------------------------------------------------------------------------------- kernel
 def cases_kernel(tier):
-    for n in ((1, 2, 3) if tier == "quick" else (1, 2, 3, 4)):
+    for n in ((1, 2, 3) if tier == "quick" else (1, 2, 3, 4, 5, 6)):
         for failed in _masks(n):
             yield "n%d/%s" % (n, "".join("F" if f else "o" for f in failed)), {"n": n, "failed": failed}
 
